@@ -165,7 +165,7 @@ func (g *HTTPGroup) createConn(remoteAddr string) (net.Conn, error) {
 	location := g.location
 	routeByHTTPUser := g.routeByHTTPUser
 	if len(g.pxyNames) > 0 {
-		name := g.pxyNames[int(newIndex)%len(g.pxyNames)]
+		name := g.pxyNames[int(newIndex%uint64(len(g.pxyNames)))]
 		f = g.createFuncs[name]
 	}
 	g.mu.RUnlock()
@@ -188,7 +188,7 @@ func (g *HTTPGroup) chooseEndpoint() (string, error) {
 	location := g.location
 	routeByHTTPUser := g.routeByHTTPUser
 	if len(g.pxyNames) > 0 {
-		name = g.pxyNames[int(newIndex)%len(g.pxyNames)]
+		name = g.pxyNames[int(newIndex%uint64(len(g.pxyNames)))]
 	}
 	g.mu.RUnlock()
 
